@@ -365,7 +365,8 @@ theorem prepare_free (f : List ℝ → ℝ) {params B : PList ℝ} (hF : Free f 
 /-- one iteration of the two-point loop on the nominal path -/
 theorem step2_free (f : List ℝ → ℝ) {params B : PList ℝ} (hF : Free f params B) {w0 : W ℝ} (lp : Loop ℝ)
     (hLI : LI f params B w0 (fun w => w.f1) lp) (i : Nat) (var : Name) (b : Param ℝ)
-    (hhas : has params var = true) (hb : find? B var = some b) (hlast : lp.lastVar ≠ some var) (hh : lp.w.h ≠ 0) :
+    (hhas : has params var = true) (hb : find? B var = some b) (hlast : lp.lastVar ≠ some var) (hh : lp.w.h ≠ 0)
+    (hB : BoundedNear f B lp.w.h) :
     (step2 f params lp i var).2 = none ∧ (step2 f params lp i var).1.lastVar = some var ∧
     (step2 f params lp i var).1.w.der1 = setAt lp.w.der1 i (some (d1Two lp.w.f1
         (f (values (upd1 B var (b.value + -(one + Scalar.abs b.value) * lp.w.h))))
@@ -377,7 +378,11 @@ theorem step2_free (f : List ℝ → ℝ) {params B : PList ℝ} (hF : Free f pa
     simp only [ScalarReal.one_eq, ScalarReal.abs_eq]
     have : (1 + |b.value|) ≠ 0 := by positivity
     exact mul_ne_zero (neg_ne_zero.mpr this) hh
-  obtain ⟨a1, a2, a3, a4, _⟩ := retry_free f hF true b.value 9 lp.w.fn p _ none hri hhead hh0
+  have hbL : tooBig (f (values (upd1 B var (b.value + -(one + Scalar.abs b.value) * lp.w.h)))) = false := by
+    have := hB.at var b hb (-1) (by simp)
+    have e : b.value + -1 * ((one + Scalar.abs b.value) * lp.w.h) = b.value + -(one + Scalar.abs b.value) * lp.w.h := by ring
+    rw [e] at this; exact this
+  obtain ⟨a1, a2, a3, a4, _⟩ := retry_free f hF true b.value 9 lp.w.fn p _ none hri hhead hh0 hbL
   unfold step2
   have hnh : (!has params var) = false := by rw [hhas]; rfl
   rw [hnh]
@@ -391,7 +396,8 @@ noncomputable def two1 (f : List ℝ → ℝ) (B : PList ℝ) (hh f1 : ℝ) (var
       (-(one + Scalar.abs b.value) * hh))
   | none => none
 
-theorem loop2_free (f : List ℝ → ℝ) {params B : PList ℝ} (hF : Free f params B) {w0 : W ℝ} (hh : w0.h ≠ 0) :
+theorem loop2_free (f : List ℝ → ℝ) {params B : PList ℝ} (hF : Free f params B) {w0 : W ℝ} (hh : w0.h ≠ 0)
+    (hB : BoundedNear f B w0.h) :
     ∀ (vs : List Name) (i0 : Nat) (lp : Loop ℝ), LI f params B w0 (fun w => w.f1) lp →
       (∀ l, lp.lastVar = some l → l ∉ vs) → vs.Nodup → (∀ v ∈ vs, has params v = true → v ∈ names B) →
       (loopGo (step2 f params) vs i0 lp).2 = none ∧
@@ -416,7 +422,7 @@ theorem loop2_free (f : List ℝ → ℝ) {params B : PList ℝ} (hF : Free f pa
         | some b => exact ⟨b, rfl⟩
       have hhl : lp.w.h ≠ 0 := by rw [hLI.2.2.2.1.h]; exact hh
       obtain ⟨s1, s2, s3, _⟩ := step2_free f hF lp hLI i0 v b hhas hb
-        (fun e => hlast v e (List.mem_cons_self ..)) hhl
+        (fun e => hlast v e (List.mem_cons_self ..)) hhl (by rw [hLI.2.2.2.1.h]; exact hB)
       have hLI1 := step2_LI f hF.ctx lp hLI i0 v _ rfl s1
       rcases hs : step2 f params lp i0 v with ⟨lp1, e1⟩
       rw [hs] at s1 s2 s3 hLI1
@@ -462,7 +468,7 @@ theorem loop2_free (f : List ℝ → ℝ) {params B : PList ℝ} (hF : Free f pa
         rw [e]; exact r7 k (by simpa using hk) (by simpa using hhk) (by omega)
 
 theorem update2_free (f : List ℝ → ℝ) (w : W ℝ) (params : PList ℝ) (hown : Own w.fn) (hok : w.fn.OK f)
-    (hF : Free f params w.fn.params) (hpnd : (names params).Nodup) (hc1 : w.c1 = true)
+    (hF : Free f params w.fn.params) (hB : BoundedNear f w.fn.params w.h) (hpnd : (names params).Nodup) (hc1 : w.c1 = true)
     (hvars : w.vars.Nodup) (hin : ∀ v ∈ w.vars, has params v = true → v ∈ names w.fn.params) (hh : w.h ≠ 0)
     (hl1 : w.der1.length = w.vars.length) :
     (update2 f w params).2 = none ∧
@@ -488,13 +494,13 @@ theorem update2_free (f : List ℝ → ℝ) (w : W ℝ) (params : PList ℝ) (ho
     have hp1 : fn1.params = w.fn.params := by have := g1 trivial; simpa using this
     have hval : fn1.fval = f (values w.fn.params) := by rw [← hp1]; exact g2
     simp only []
-    have htb : tooBig fn1.fval = false := by rw [hval]; exact hF.bounded _
+    have htb : tooBig fn1.fval = false := by rw [hval]; exact hB.base
     rw [htb]
     simp only [Bool.false_eq_true, if_false]
     have hLI0 : LI f params w.fn.params { w with fn := fn1, f1 := fn1.fval } (fun w => w.f1)
         { w := { w with fn := fn1, f1 := fn1.fval }, p := [], lastVar := none } :=
       ⟨g2, (by rw [hp1]; exact Dev.refl _ _), (fun l h => by cases h), Frame.refl _, rfl⟩
-    obtain ⟨r1, r2, r3, _, r7⟩ := loop2_free f hF (w0 := { w with fn := fn1, f1 := fn1.fval }) hh w.vars 0 _ hLI0
+    obtain ⟨r1, r2, r3, _, r7⟩ := loop2_free f hF (w0 := { w with fn := fn1, f1 := fn1.fval }) hh hB w.vars 0 _ hLI0
       (fun l h => by cases h) hvars hin
     rcases hl : loopGo (step2 f params) w.vars 0 { w := { w with fn := fn1, f1 := fn1.fval }, p := [], lastVar := none } with ⟨lp, e⟩
     rw [hl] at r1 r2 r3 r7
